@@ -1,4 +1,5 @@
 import Props.C03
+import Lemmas.BuildInv
 /-!
 # C10 — dispatch runs exactly the addressed command once, with its options and arguments
 -/
@@ -186,5 +187,50 @@ example : dispatch Demo.ext (parseUser Demo.ext Demo.prog [b "--num=1", b "cmd",
     .ran 1 1 [b "a"] := by decide
 /-- a command name after `--` or as an option value does not select the command -/
 example : (parseUser Demo.ext Demo.prog [b "--num=1", b "--name", b "cmd", b "--", b "cmd"]).st.cur = 0 := by decide
+
+/-! ## Inherited options (definition layer) -/
+
+/-- **A new command sees every option of its parent through the very same cells.**  For *every*
+definition history accepted by the library (`buildB … = ok st`), calling `NewCommand(name, …)` on a
+command `p` yields a command whose option table resolves every key exactly as `p`'s table does at
+that moment — same key, same option id, i.e. the same storage cell that parsing writes and that
+`Value`/`Called` read — so a value parsed at the command's level, or at any ancestor's, is what the
+command's function sees.  (The help command is the documented exception: nothing is copied into it.)
+The proof needs the invariants of the definition layer (`Lemmas/BuildInv.lean`: the command tables
+form a tree, every table has distinct keys, every handle is a node), which hold after every history. -/
+theorem view_inherits (env : Env) (root : Str) (script : List DefOp) (st st' : BState)
+    (h : Nat) (name desc : Str) (p : Nat)
+    (hb : buildB ext env root script = .ok st)
+    (hp : st.handles[h]? = some p)
+    (hname : (name == (st.P.node p).helpName) = false)
+    (hs : buildStep ext env st (.cmd h name desc) = .ok st') (k : Str) :
+    lookup k (st'.P.node st.P.nodes.length).opts = lookup k (st.P.node p).opts := by
+  have inv := buildB_inv ext env root script st hb
+  have hpl : p < st.P.nodes.length := inv.handles h p hp
+  simp only [buildStep, handle, hp, bind, Except.bind] at hs
+  split at hs
+  · simp at hs
+  · rename_i v hv
+    obtain ⟨P1, id⟩ := v
+    simp only [pure, Except.pure, Except.ok.injEq] at hs
+    subst hs
+    have e := addChildCommand_eq st.P P1 p id _ hv
+    simp only
+    rw [e.1]
+    exact new_command_table st.P p _ hpl inv.prog.tree rfl rfl rfl hname (inv.prog.keys p) k
+
+/-- the invariants themselves, for every accepted definition history -/
+theorem definitions_well_formed (env : Env) (root : Str) (script : List DefOp) (st : BState)
+    (hb : buildB ext env root script = .ok st) :
+    TreeWF st.P ∧ KInv st.P ∧ ∀ (h p : Nat), st.handles[h]? = some p → p < st.P.nodes.length :=
+  let i := buildB_inv ext env root script st hb
+  ⟨i.prog.tree, i.prog.keys, i.handles⟩
+
+/-- on the demo program: the command `cmd` resolves the root's `num`, `n` and `verbose` to the
+root's own cells, and a value given after the command name is seen through the root's table -/
+example :
+    lookup (b "num") (Demo.prog.node 1).opts = lookup (b "num") (Demo.prog.node 0).opts ∧
+    lookup (b "n") (Demo.prog.node 1).opts = lookup (b "n") (Demo.prog.node 0).opts ∧
+    ((parseUser Demo.ext Demo.prog [b "cmd", b "--num=7"]).st.P.opt 4).value = .i 7 := by decide
 
 end GoModel
